@@ -35,6 +35,9 @@ static int find_ext(cf_file* f, const std::string& nm){ for (int h = 1; h < f->n
 static void resize_ext(cf_file* f, int h, long n){ cf_hdu& x = f->hdu[h]; vr64* nd = (vr64*)calloc(n ? n : 1, sizeof(vr64)); for (long i = 0; i < n; i++) nd[i] = i < (long)x.ndata ? x.data[i] : x.data[x.ndata - 1]; free(x.data); x.data = nd; x.ndata = n; x.naxes[0] = n; set_card(x, "NAXIS1", std::to_string(n)); }
 static void drop_ext(cf_file* f, int h){ free(f->hdu[h].data); for (int j = h; j + 1 < f->nhdu; j++) f->hdu[j] = f->hdu[j + 1]; f->nhdu--; }
 
+// an empty table: what the default constructor builds (ndim == 0 alone is not enough: stale naux / aux break key lookups and a later fit)
+static long is_empty(const ps_table& r){ return r.ndim == 0 && r.naux == 0 && !r.aux && !r.order && !r.knots && !r.nknots && !r.extents && !r.periods && !r.coefficients && !r.naxes && !r.strides; }
+static void empty_checked(const std::string& lab, ps_table& r){ eqi(lab + " (every field as after default construction)", is_empty(r), 1); char k[] = "A"; char* v = (char*)1; int sg = guarded([&]{ v = ir_t_get_aux_value((char*)&r, k); }); exc_pending = 0; eqi(lab + " and a key lookup on it finds nothing without crashing", sg == 0 && v == 0, 1); }
 // the object after an operation: unchanged or empty (if the operation failed), then destructible and balanced
 struct Post { std::string lab; int base_live; int base_err; };
 static bool destroy_checked(const std::string& lab, ps_table& r){
@@ -53,7 +56,7 @@ int main(int argc, char** argv){
     s.order.resize(s.nd); s.nk.resize(s.nd);
     for (li++; li < lines.size() && lines[li] != "end"; li++) { std::istringstream ds(lines[li]); std::string k; ds >> k; if (k == "dim") { unsigned d; std::string a; ds >> d >> a >> s.order[d] >> a >> s.nk[d]; }
       else if (k == "aux") { std::string kv; ds >> kv; size_t bar = kv.find('|'); std::string key = kv.substr(0, bar), val = kv.substr(bar + 1); for (auto& c : val) if (c == '~') c = ' '; s.aux.push_back({key, val}); } }
-    const std::string& sc = s.scen; bool realmode = sc == "convolve" || sc.rfind("corrupt", 0) == 0;
+    const std::string& sc = s.scen; bool realmode = sc == "convolve" || sc == "fitfaults" || sc.rfind("corrupt", 0) == 0;
     ncase++; vs_reset(realmode ? 0 : 1); vs_note("case", id.c_str()); exc_pending = 0; reset_files(); vm_fail_at = -1;
     if (setjmp(vs_jmp)) { nerr++; continue; }
     ps_table t; build(t, s, "", realmode);
@@ -72,7 +75,7 @@ int main(int argc, char** argv){
         if (pass) vm_fail_at = vm_alloc_count + k; else { cf_calls = 0; cf_fail_at = k; }
         uint32_t ok = 0; int sgr = guarded([&]{ ok = rd(r); }); bool thr = exc_pending; exc_pending = 0; vm_fail_at = -1; cf_fail_at = -1;
         eqi(lab + " the reader does not crash", sgr, 0); if (sgr) { cf_open_handles = bopen; vm_errors = berr; continue; }
-        if (thr || !ok) { eqi(lab + " a failed read leaves the table empty (ndim == 0)", r.ndim, 0);
+        if (thr || !ok) { eqi(lab + " a failed read leaves the table empty (ndim == 0)", r.ndim, 0); if (r.ndim == 0) empty_checked(lab + " a failed read leaves the table empty", r);
           if (r.ndim == 0) { uint32_t ok2 = 0; guarded([&]{ ok2 = rd(r); }); bool thr2 = exc_pending; exc_pending = 0; eqi(lab + " the table can be read into again", ok2 && !thr2, 1); if (ok2 && !thr2) same(lab + " second read:", t, r); } }
         else { // a read that reports success although one call failed ignored that error by design (unreadable header space or
                // EXTENTS fall back to defaults): the table need not equal the original, but it must be a consistent object
@@ -86,8 +89,8 @@ int main(int argc, char** argv){
       for (int m = 0; m < 2; m++) { uint32_t ok = m ? ir_t_read_fits_mem((char*)&r, buf, n) : ir_t_read_fits((char*)&r, path); bool thr = exc_pending; exc_pending = 0; std::string lab = id + (m ? " read_fits_mem" : " read_fits") + " into a populated table:";
         eqi(lab + " refused", thr || !ok, 1); same(lab + " table unchanged:", t, r); }
       // moves
-      ps_table a; ir_t_move_construct((char*)&a, (char*)&r); eqi(id + " moved-from table is empty", r.ndim, 0); same(id + " move-constructed table:", t, a); destroy_checked(id + " moved-from:", r);
-      ps_table b; ir_t_default_construct((char*)&b); ir_t_move_assign((char*)&b, (char*)&a); eqi(id + " table moved from by assignment to an empty one is empty", a.ndim, 0); same(id + " move-assigned table:", t, b); destroy_checked(id + " move-assigned-from:", a);
+      ps_table a; ir_t_move_construct((char*)&a, (char*)&r); eqi(id + " moved-from table is empty", r.ndim, 0); if (r.ndim == 0) empty_checked(id + " moved-from table is empty", r); same(id + " move-constructed table:", t, a); destroy_checked(id + " moved-from:", r);
+      ps_table b; ir_t_default_construct((char*)&b); ir_t_move_assign((char*)&b, (char*)&a); eqi(id + " table moved from by assignment to an empty one is empty", a.ndim, 0); if (a.ndim == 0) empty_checked(id + " table moved from by assignment to an empty one is empty", a); same(id + " move-assigned table:", t, b); destroy_checked(id + " move-assigned-from:", a);
       ir_t_move_assign((char*)&b, (char*)&b); same(id + " self move-assignment keeps the table:", t, b);
       destroy_checked(id + " final:", b); eqi(id + " every block is released exactly once", live0(), base);
     } else if (sc == "keys") {
@@ -104,6 +107,26 @@ int main(int argc, char** argv){
           bool thr = exc_pending; exc_pending = 0; vm_fail_at = -1; if (k < 0) used = vm_alloc_count - a0;
           if (thr && !sgo) { int sg3 = guarded([&]{ same(lab + " failed operation leaves the table unchanged:", pre, r); }); eqi(lab + " the table can still be inspected after the failed operation", sg3, 0); }
           destroy_checked(lab, r); ir_t_destroy((char*)&pre); eqi(lab + " every block is released exactly once", live0(), base); eqi(lab + " no double / foreign delete", vm_errors, berr); vm_errors = berr; } }
+    } else if (sc == "fitfaults") {
+      // fit() into an empty table with every single failing allocation (operator new; the CHOLMOD model's own storage does not fail)
+      unsigned ND = s.nd; std::vector<std::vector<vr64>> kn(ND), co(ND); std::vector<uint32_t> ord(ND), po(ND);
+      for (unsigned d = 0; d < ND; d++) { ord[d] = s.order[d]; po[d] = s.order[d] ? 1 : 0; for (uint64_t i = 0; i < s.nk[d]; i++) kn[d].push_back(vs_q((long)i, 1)); unsigned ncd = 2 + d; vr64 lo = kn[d][ord[d]], hi = kn[d][s.nk[d] - ord[d] - 1];
+        for (unsigned i = 0; i < ncd; i++) co[d].push_back(vs_add(lo, vs_mul(vs_sub(hi, lo), vs_q(2 * i + 1, 2 * ncd)))); }
+      std::vector<std::vector<unsigned>> rowsidx; { std::vector<unsigned> ix(ND, 0); while (true) { rowsidx.push_back(ix); int d = ND - 1; while (d >= 0 && ++ix[d] == co[d].size()) { ix[d] = 0; d--; } if (d < 0) break; } }
+      size_t R = rowsidx.size(); struct ndsp { size_t rows, ndim; vr64* x; unsigned** i; unsigned* ranges; } data; data.rows = R; data.ndim = ND; std::vector<vr64> y(R), w(R), sm(ND); std::vector<std::vector<unsigned>> idx(ND, std::vector<unsigned>(R)); std::vector<unsigned*> ip(ND); std::vector<unsigned> ranges(ND);
+      for (unsigned d = 0; d < ND; d++) { ranges[d] = co[d].size(); for (size_t r = 0; r < R; r++) idx[d][r] = rowsidx[r][d]; ip[d] = idx[d].data(); char nm[24]; snprintf(nm, 24, "lam%u", d); sm[d] = vs_var_between(nm, vs_q(0, 1), VS_NOBOUND); }
+      for (size_t r = 0; r < R; r++) { char nm[24]; snprintf(nm, 24, "y%zu", r); y[r] = vs_var(nm); snprintf(nm, 24, "w%zu", r); w[r] = vs_var_between(nm, vs_q(0, 1), VS_NOBOUND); }
+      data.x = y.data(); data.i = ip.data(); data.ranges = ranges.data();
+      std::vector<vr64*> cp(ND), kp(ND); std::vector<uint64_t> cn(ND), knn(ND); for (unsigned d = 0; d < ND; d++) { cp[d] = co[d].data(); cn[d] = co[d].size(); kp[d] = kn[d].data(); knn[d] = kn[d].size(); }
+      auto dofit = [&](ps_table& r){ ir_w_fit((char*)&r, (char*)&data, (char*)w.data(), R, (char*)cp.data(), (char*)cn.data(), ND, (char*)ord.data(), ND, (char*)kp.data(), (char*)knn.data(), ND, (char*)sm.data(), ND, (char*)po.data(), ND, 0xffffffffu); };
+      int used = 0;
+      for (int k = -1; k < used || k < 0; k++) { std::string lab = id + " fit" + (k < 0 ? ":" : ", allocation #" + std::to_string(k) + " fails:");
+        int base = live0(), berr = vm_errors; ps_table r; ir_t_default_construct((char*)&r); int a0 = vm_alloc_count; if (k >= 0) vm_fail_at = a0 + k;
+        int sg = guarded([&]{ dofit(r); }); bool thr = exc_pending; exc_pending = 0; vm_fail_at = -1; if (k < 0) used = vm_alloc_count - a0;
+        eqi(lab + " fit does not crash", sg, 0); if (sg) { vm_errors = berr; continue; }
+        if (k < 0 && thr) vs_error("fault-free fit threw");
+        if (thr) { eqi(lab + " a failed fit leaves the table empty (ndim == 0)", r.ndim, 0); if (r.ndim == 0) empty_checked(lab + " a failed fit leaves the table empty", r); }
+        if (destroy_checked(lab, r)) { eqi(lab + " every block is released exactly once", live0(), base); eqi(lab + " no double / foreign delete", vm_errors, berr); } vm_errors = berr; }
     } else if (sc == "keylimits") {
       // C16: a string value is accepted iff it fits the 80-column card next to its key (independent oracle: 68 characters for
       // standard keys, 80-(13+len) for HIERARCH keys); a rejected write leaves the store unchanged, an accepted one is stored whole
@@ -154,7 +177,7 @@ int main(int argc, char** argv){
       uint32_t ok = 0; int sg = guarded([&]{ ok = ir_t_read_fits((char*)&r, path); }); bool thr = exc_pending; exc_pending = 0; std::string lab = id + " (" + v + "):";
       eqi(lab + " the reader does not crash", sg, 0);
       if (sg == 0) {
-        if (thr || !ok) { eqi(lab + " a failed read leaves the table empty (ndim == 0)", r.ndim, 0); }
+        if (thr || !ok) { eqi(lab + " a failed read leaves the table empty (ndim == 0)", r.ndim, 0); if (r.ndim == 0) empty_checked(lab + " a failed read leaves the table empty", r); }
         else { // a table was returned: it must be well formed
           for (unsigned d = 0; d < r.ndim; d++) { eqi(lab + " returned table: coefficient count == nknots - order - 1", (long)r.naxes[d], (long)r.nknots[d] - (long)r.order[d] - 1);
             eqi(lab + " returned table: at least order + 1 coefficients", (long)r.naxes[d] >= (long)r.order[d] + 1, 1);
